@@ -1419,3 +1419,48 @@ def silence_cases(budget, rng):
                                   mk_req(3, 2 * mult + 20, {"mode": "evack", "d": 9, "ed": 3})]}
                     out.append(finish(c))
     return out
+
+
+def progress_msg(token, i):
+    params = {"progress": i, "total": 100}
+    if token is not None:
+        params["progressToken"] = token
+    return {"k": "msg", "m": {"jsonrpc": "2.0", "method": "notifications/progress", "params": params}, "typed": bool(i % 2)}
+
+
+def wait_traffic_cases(budget, rng):
+    """a request acknowledged with 202 and never answered, while the event stream keeps carrying
+    other traffic DURING the wait - progress for the request's token / a foreign token / no token,
+    other notifications, server requests, responses to other ids, keep-alive comments - at periods
+    below and above the timeout, for 3x and 10x the timeout: the request still ends with the
+    synthesised timeout error WITHIN the timeout, and the next requests are served"""
+    out = []
+    T = 64
+    k = 0
+    kinds = {
+        "progress-own": lambda i: progress_msg("tok-1", i),
+        "progress-foreign": lambda i: progress_msg("tok-other", i),
+        "progress-int-token": lambda i: progress_msg(7, i),
+        "progress-no-token": lambda i: progress_msg(None, i),
+        "notification": lambda i: msg_notif(i),
+        "server-request": lambda i: msg_srvreq(i),
+        "foreign-response": lambda i: msg_foreign_resp(i),
+        "keep-alive": lambda i: {"k": "raw", "text": ": keep-alive %d\n" % i},
+        "keepalive-event": lambda i: {"k": "raw", "text": "event: keepalive\ndata: %d\n\n" % i},
+    }
+    for name, mk in kinds.items():
+        for period in (T // 4, T - 1, T + 1, 2 * T):
+            for dur in (3 * T, 10 * T):
+                k += 1
+                if budget == "quick" and dur == 10 * T and period in (T + 1, 2 * T):
+                    continue
+                n = dur // period
+                items = [EP] + [mk(i) for i in range(n)]
+                ticks = [1] + [8 + i * period for i in range(n)]
+                reqs = [mk_req(1, 3, {"mode": "silence", "d": 2}, id=[7, "r1"][k % 2], params={"_meta": {"progressToken": "tok-1"}}, form=("dict", "model")[k % 2]),
+                        mk_req(2, 4, {"mode": "200"}), mk_req(3, 5, {"mode": "ackev", "d": 2, "ed": 5})]
+                c = {"T": T, "tie": TIES[k % 3], "items": items, "cuts": "items", "ticks": ticks, "reqs": reqs}
+                finish(c)
+                c["exit"] = {"k": "normal", "at": max(c["exit"]["at"], 8 + dur + 3 * T + 40)}
+                out.append(c)
+    return out
